@@ -21,7 +21,14 @@
     their operand is (`ignored:queryFieldDeadEnd:$ne`, `…:$nin`; `known_ignored_are_ne_nin`
     names them) — a deviation of the matcher that shows here as an operator taking no part;
   * ONE option is still accepted without an opt-out: `Collection.find(collation=…)`, which the
-    library stores on the cursor on purpose (`known_silent_is_find_collation` names it).
+    library stores on the cursor on purpose (`known_silent_is_find_collation` names it);
+  * the EXPRESSION parts of the stages (`$project`, `$addFields` / `$set`, `$replaceRoot`,
+    `$group` `_id`, `groupBy` of `$bucket`, the argument of every accumulator, `startWith` of
+    `$graphLookup`) and its `restrictSearchWithMatch` are looked at only while a document is
+    read: on an EMPTY collection an unsupported name there is let through (`lazy-empty:<site>`,
+    `knownLazyEmptySites`; `lazy_empty_sites_are_expressions_or_filters`).  The accumulator NAMES
+    of `$group` / `$bucket` are checked before any document is read since 6f29a71
+    (`accumulator_names_loud_on_empty_input`).
   Repaired in the library and gone from every exclusion list (the witnesses are probed again on
   every run, harness/props/c20.py `judge_fixed`):
   * top-level `$not` accepted and ignored (b0b21d1);
@@ -135,13 +142,16 @@ example : Proofs.C20.Position.strict .typeAlias = true ∧
     `LOGICAL_OPERATOR_MAP` other than `$not` whose value is truthy whatever its operands say, at
     the top level of a filter or of an `$elemMatch` query; `$ne` / `$nin` in a condition whose
     path reaches no value; an update operator that the pre-check `_validate_update_operators`
-    lets through and the operator loop has no branch for, when no document matches. -/
+    lets through and the operator loop has no branch for, when no document matches; an
+    accumulator that the pre-check `_validate_accumulators` lets through and `_accumulate_group`
+    has no branch for (it has no default branch any more, 6f29a71). -/
 theorem ignored_only_structurally (T : Tables Code) (pos : Position) (k : Code)
     (h : dispatch T pos k = .ignored) :
     (k ∈ T.logicalConst ∧ k ∈ T.logicalOps ∧ k ≠ cNot ∧
       (pos = .queryTop ∨ pos = .queryElemMatch)) ∨
     (pos = .queryFieldDeadEnd ∧ (k = cNe ∨ k = cNin)) ∨
-    (pos = .updateNoMatch ∧ k ∈ T.updateChecked ∧ k ∉ T.updaters ∧ k ∉ T.updateInline) :=
+    (pos = .updateNoMatch ∧ k ∈ T.updateChecked ∧ k ∉ T.updaters ∧ k ∉ T.updateInline) ∨
+    (pos = .accumulator ∧ k ∈ T.groupChecked ∧ k ∉ T.groupingMap ∧ k ∉ T.groupInline) :=
   Proofs.C20.ignored_only_structurally T pos k h
 
 /-- the first alternative is inhabited by tables with a constant connective other than `$not`
@@ -153,8 +163,21 @@ example : dispatch { Tables.empty with logicalOps := [cAll], logicalConst := [cA
 /-- the second by any table that implements `$ne`, the third by a pre-check that lets through
     a name the operator loop does not know -/
 example : dispatch { Tables.empty with operatorMap := [cNe] } .queryFieldDeadEnd cNe = .ignored ∧
-    dispatch { Tables.empty with updateChecked := [7] } .updateNoMatch 7 = .ignored := by
+    dispatch { Tables.empty with updateChecked := [7] } .updateNoMatch 7 = .ignored ∧
+    dispatch { Tables.empty with groupChecked := [7] } .accumulator 7 = .ignored := by
   decide +kernel
+
+/-- **The pre-check of the accumulators lets through only what `_accumulate_group` has a branch
+    for** (regenerated tables: the names `_validate_accumulators` accepts against
+    `_GROUPING_OPERATOR_MAP` and the `elif operator == '$op'` branches).  `_accumulate_group` has
+    no default branch any more (6f29a71): a name in the first and not in the second would give
+    no output field, silently. -/
+theorem accumulator_precheck_within_loop :
+    ∀ k ∈ Generated.tables.groupChecked,
+      k ∈ Generated.tables.groupingMap ∨ k ∈ Generated.tables.groupInline := by
+  intro k hk
+  have := List.all_eq_true.mp Proofs.C20.accumulator_precheck_within_loop_tbl k hk
+  simpa using this
 
 /-- **The pre-check of an update lets through only what the operator loop has a branch for**
     (regenerated tables: `_updaters` ∪ `_OTHER_UPDATE_OPERATORS` against `_updaters` and the
@@ -223,6 +246,68 @@ theorem no_site_name_ignored :
     ∀ e ∈ Generated.siteVocab, e.disp = .ignored →
       (e.site, e.code) ∈ Generated.knownIgnoredSitePairs :=
   Proofs.C20.siteRows_known_entries _ _ Proofs.C20.site_rows_known
+
+/-! ### empty input: a refusal must not depend on there being a document to read -/
+
+/-- The full-strength statement: a name that a site refuses on a populated collection (every
+    probing call raises) is refused by the same calls on an empty collection. -/
+def sites_loud_on_empty_input_full : Prop :=
+  ∀ e ∈ Generated.siteVocab, e.disp.raises = true → e.onEmpty = .raises
+
+/-- False as it stands (known findings `lazy-empty:<site>`): the expression parts of the stages
+    are parsed once per document, so never on an empty collection. -/
+theorem sites_loud_on_empty_input_full_fails : ¬ sites_loud_on_empty_input_full := by
+  intro h
+  obtain ⟨e, he, hd⟩ := List.any_eq_true.mp Proofs.C20.some_site_silent_on_empty
+  simp only [Bool.and_eq_true, decide_eq_true_eq] at hd
+  have := h e he hd.1
+  rw [hd.2] at this
+  exact absurd this (by decide)
+
+/-- **Loud on empty input (partial: outside the listed sites).**  Every refusal observed at a
+    site was tried again on an empty collection, and it is repeated there — except at the sites
+    listed as `lazy-empty:<site>`. -/
+theorem sites_loud_on_empty_input_partial :
+    ∀ e ∈ Generated.siteVocab, e.disp.raises = true → e.site ∉ Generated.knownLazyEmptySites →
+      e.onEmpty = .raises := by
+  intro e he hr hn
+  obtain ⟨h1, h2⟩ := Proofs.C20.siteRows_empty_entries _ _ Proofs.C20.site_rows_empty e he
+  cases ho : e.onEmpty with
+  | notProbed => exact absurd ho (h1 hr)
+  | raises => rfl
+  | silent => exact absurd (h2 ho) hn
+
+/-- **The listed sites, by kind**: each is a part of a stage that is handed to the expression
+    parser or to the matcher (`restrictSearchWithMatch`) — no accumulator-name site, no
+    sub-pipeline of `$facet`. -/
+theorem lazy_empty_sites_are_expressions_or_filters :
+    ∀ i ∈ Generated.knownLazyEmptySites,
+      Proofs.C20.siteFamily i = some .expr ∨ Proofs.C20.siteFamily i = some .query := by
+  intro i hi
+  have := List.all_eq_true.mp Proofs.C20.lazy_empty_families_tbl i hi
+  simpa using this
+
+/-- **Accumulator names and sub-pipeline stages are refused on empty input too** (6f29a71 for
+    the accumulators: `_validate_accumulators` runs before `$group` / `$bucket` read any
+    document): at every site whose helper dispatches accumulators or stages, a name refused on
+    a populated collection is refused on an empty one. -/
+theorem accumulator_names_loud_on_empty_input :
+    ∀ e ∈ Generated.siteVocab,
+      (Proofs.C20.siteFamily e.site = some .accumulator ∨
+        Proofs.C20.siteFamily e.site = some .stage) →
+      e.disp.raises = true → e.onEmpty = .raises := by
+  intro e he hf hr
+  apply sites_loud_on_empty_input_partial e he hr
+  intro hmem
+  rcases lazy_empty_sites_are_expressions_or_filters e.site hmem with h | h <;>
+    rcases hf with hf | hf <;> rw [hf] at h <;> cases h
+
+/-- non-vacuity: the table has refusals at accumulator-name sites, repeated on empty input -/
+example : ∃ e ∈ Generated.siteVocab, Proofs.C20.siteFamily e.site = some .accumulator ∧
+    e.disp.raises = true ∧ e.onEmpty = .raises := by
+  obtain ⟨e, he, hd⟩ := List.any_eq_true.mp Proofs.C20.some_accumulator_refused_on_empty
+  simp only [Bool.and_eq_true, beq_iff_eq, decide_eq_true_eq] at hd
+  exact ⟨e, he, hd.1.1, hd.1.2, hd.2⟩
 
 /-- **Unknown names raise at every consumer site**: a probed `$name` for which the site's
     dispatcher has no branch at all makes the call raise there. -/
